@@ -928,8 +928,19 @@ void tickit_term_input_wait_msec(TickitTerm *tt, long msec)
 
   tickit_term_ref(tt);
 
-  if(ret == 0)
+  if(ret == 0) {
+    /* select timed out. That forces a pending partial sequence only if the
+     * sequence's own deadline has passed; when it was the caller's shorter
+     * time-out that expired nothing has arrived, and the tokenizer and the
+     * deadline stay as they are (get_keys would restart the deadline)
+     */
+    if(get_timeout(tt) != 0) {
+      check_resize(tt);
+      tickit_term_unref(tt);
+      return;
+    }
     timedout(tt);
+  }
   else if(ret > 0)
     termkey_advisereadable(tk);
 
